@@ -90,33 +90,6 @@ def _is_protocol_rejection(e):
     return isinstance(e, TLSProtocolException)
 
 
-def dup_ext_types(f, v, t=0):
-    """does the value carry the same tag twice within one repetition of tagged items (an extension
-    block with a repeated extension type)?  Such a message is not well formed (RFC 8446 4.2); the
-    library may accept or refuse it, so it is outside the accept/reject comparison."""
-    k = f[0]
-    try:
-        if k == 'p':
-            return dup_ext_types(f[1], v[1], t) or dup_ext_types(f[2], v[2], t)
-        if k == 'L':
-            return dup_ext_types(f[2], v, t)
-        if k == 'O':
-            return v[0] == 'S' and dup_ext_types(f[1], v[1], t)
-        if k == 'M':
-            if f[1][0] == 'T':
-                tags = [x[1][1] for x in v[1]]
-                if len(tags) != len(set(tags)):
-                    return True
-            return any(dup_ext_types(f[1], x, t) for x in v[1])
-        if k == 'T':
-            return dup_ext_types(f[2], v[2], v[1][1])
-        if k == 'C':
-            return dup_ext_types(V.select(f, t), v, t)
-    except Exception:  # noqa - value does not have the format's shape
-        return False
-    return False
-
-
 def dup_first_ext(f, v, t=0):
     """v with the first item of its first non-empty repetition of tagged items appended once more
     (the same extension type twice in one block); None when there is no such repetition"""
@@ -198,6 +171,9 @@ class Run(object):
         if self.lc is None:
             return
         rep = self.ask_many(["show " + n for n in names])
+        for i, n in enumerate(names):
+            if rep[i] == "bad-op" and self.ents[n].model_name != n:
+                rep[i] = self.lc.ask("show " + self.ents[n].model_name)
         for n, r in zip(names, rep):
             if r == "bad-op":
                 self.ctx.disagree("format-missing-in-model", n, r, "entry")
